@@ -7,8 +7,9 @@ SmStations == {S("a", "m1", 1), S("b", "m2", 2), S("a", "m3", 2)}
 SmArpSrcs == {A(1, "m1", "m1", "a", 1), A(2, "m2", "m2", "b", 1)}
 SmIPs == {"a", "b"}
 \* ... and a host that claims the fake gateway's address
-SmGwStations == SmStations \cup {S("g", "m3", 2)}
-SmGwArpSrcs == SmArpSrcs \cup {A(2, "m3", "m3", "g", 1)}
+SmGwStations == {S("a", "m1", 1), S("g", "m3", 2)}
+SmGwArpSrcs == {A(1, "m1", "m1", "a", 1), A(2, "m3", "m3", "g", 1)}
+SmGwTargets == {"a", "g"}
 \* medium: more ARP variety (hwsrc differs from the Ethernet source, ARP probe 0.0.0.0, foreign hardware type)
 MdStations == {S("a", "m1", 1), S("b", "m2", 2), S("a", "m3", 2), S("c", "m3", 3)}
 MdArpSrcs == {A(1, "m1", "m1", "a", 1), A(2, "m2", "m2", "b", 1), A(2, "m3", "m3", "a", 1), A(3, "m3", "m3", "c", 1),
